@@ -127,6 +127,10 @@ Time(ms) ==
     /\ Has("time") /\ UNCHANGED open
     /\ Emit([op |-> "time", ms |-> ms], 1, 0)
 
+SvcStop(kind) ==
+    /\ Has("stop") /\ UNCHANGED open
+    /\ Emit([op |-> kind], 0, 0)
+
 Quiesce ==
     /\ Has("quiesce") /\ UNCHANGED open
     /\ Emit([op |-> "quiescent"], -12, -8)
@@ -158,6 +162,7 @@ NextC(cls) ==
       [] cls = "misc" ->
             \/ \E c \in Conns : CliClose(c)
             \/ \E ms \in {1000, 6000} : Time(ms)
+            \/ \E kind \in {"stop", "mqlost", "start", "start"} : SvcStop(kind)
             \/ Quiesce
       [] OTHER -> FALSE
 
